@@ -63,7 +63,7 @@ def run(repo, statuses, json_mode, order=None, targets=None, texts=None):
             return (True, fut)
         if t.endswith('as_completed'):
             got = interp.value(call.args[0], e)
-            keys = list(got) if isinstance(got, (dict, list, tuple, set)) else None
+            keys = list(got) if isinstance(got, (dict, list, tuple, set)) or type(got).__name__ in ('dict_values', 'dict_keys') else None
             if keys is None or any(not isinstance(k, Tok) for k in keys):
                 raise Unknown('as_completed over something that is not the collection of submitted futures')
             keys = sorted(keys, key=lambda k: k.attrs['index'])
